@@ -55,8 +55,32 @@ AvgStep(Ao, e) ==
 RateBound(t) ==
     \A i, j \in DOMAIN t.starts :
         i < j => (j - i + 1) * t.secq <= t.count * t.secq + t.count * (t.starts_hi[j] - t.starts[i])
+\* One pass of throttle's loop is Throttle!Try: the pair read is the pair stored last (the read-modify-write is one
+\* transaction), and what the pass does follows from it.  Times and tokens are in 1/t.q (floats rounded: tolerance).
+Abs(x) == IF x < 0 THEN -x ELSE x
+ThrPass(Ao, e, t) ==
+    LET ts  == e.tally * t.seconds + (e.now - e.last) * t.count     \* refilled tally, times t.seconds
+        cap == t.count * t.q * t.seconds
+        one == t.q * t.seconds
+        tol == 4 * t.seconds + t.count
+    IN IF <<e.last, e.tally>> # Ao.reg
+       THEN V(FALSE, Ao, "C20 a pass of the throttle read " \o ToJson(<<e.last, e.tally>>) \o " but the pair stored last was " \o ToJson(Ao.reg) \o " (lost update)")
+       ELSE IF e.now < e.last THEN V(FALSE, Ao, "harness: throttle clock went backwards")
+       ELSE IF e.act = "start"
+       THEN IF e.wnow # e.now THEN V(FALSE, Ao, "C20 a start stored a time that is not the time of the pass")
+            ELSE IF \/ ts > cap - tol /\ Abs(e.wtally - (t.count - 1) * t.q) <= 2
+                    \/ ts >= one - tol /\ ts <= cap + tol /\ Abs(e.wtally * t.seconds - (ts - one)) <= tol
+                 THEN V(TRUE, [Ao EXCEPT !.reg = <<e.wnow, e.wtally>>], "")
+                 ELSE V(FALSE, Ao, "C20 a start is not Throttle!Try: refilled tally x seconds " \o ToString(ts) \o " (one token " \o ToString(one) \o
+                                   ", cap " \o ToString(cap) \o "), stored tally " \o ToString(e.wtally))
+       ELSE IF ts < one + tol /\ Abs(e.delay * t.count - (one - ts)) <= tol
+       THEN V(TRUE, Ao, "")
+       ELSE V(FALSE, Ao, "C20 a pass that did not start is not Throttle!Try: refilled tally x seconds " \o ToString(ts) \o " (one token " \o ToString(one) \o
+                         "), slept " \o ToString(e.delay))
 ThrStep(Ao, e, t) ==
-    IF e.ev = "check"
+    IF e.ev = "init" THEN V(TRUE, [Ao EXCEPT !.reg = <<e.wnow, e.wtally>>], "")
+    ELSE IF e.ev = "pass" THEN ThrPass(Ao, e, t)
+    ELSE IF e.ev = "check"
     THEN IF ~RateBound(t)
          THEN V(FALSE, Ao, "C20 throttle exceeded its rate: starts (in 1/" \o ToString(t.q) \o " s) " \o ToJson(t.starts) \o
                            " with count " \o ToString(t.count) \o " per " \o ToString(t.secq) \o "/" \o ToString(t.q) \o " s")
@@ -66,7 +90,7 @@ ThrStep(Ao, e, t) ==
     ELSE V(TRUE, Ao, "")
 
 RInit == /\ tid \in 1..NT /\ l = 1 /\ done = FALSE
-         /\ A = [tc |-> <<0, 0>>, call |-> [c \in 1..Traces[tid].nc |-> NoCall]]
+         /\ A = [tc |-> <<0, 0>>, reg |-> <<0, 0>>, call |-> [c \in 1..Traces[tid].nc |-> NoCall]]
 RNext == /\ ~done
          /\ LET t == Traces[tid]
                 e == t.ev[l]
